@@ -194,7 +194,7 @@ func cmdCheck(args []string) int {
 			// every safety and call-site obligation of a function verified for this property is
 			// a supporting obligation of the property (a failed one would make later ones vacuous)
 			opts := &fnOpts{houdini: true, props: []string{id}}
-			j.res = e.verifyFunc(j.fn, opts, nil)
+			j.res = e.genFunc(j.fn, opts, cfg)
 		}(jobs[i])
 	}
 	for range targets {
@@ -270,30 +270,30 @@ func cmdCheck(args []string) int {
 }
 
 type report struct {
-	id, tier string
-	seed     int
-	eng      *Engine
-	pd       *propDef
-	cfg      *solverCfg
-	verif    string
-	obligs   []*Oblig
-	covers   []*Oblig
-	results  []*fnResult
-	funcs    []funcEvidence
-	undecided []string
-	trusted  map[string]bool
+	id, tier     string
+	seed         int
+	eng          *Engine
+	pd           *propDef
+	cfg          *solverCfg
+	verif        string
+	obligs       []*Oblig
+	covers       []*Oblig
+	results      []*fnResult
+	funcs        []funcEvidence
+	undecided    []string
+	trusted      map[string]bool
 	uncontracted map[string]bool
-	known    []knownFinding
-	knownHit []string
-	knownGone []string
-	violations []string
-	extraObl  int // obligations from special analyses (no solver)
-	extraOK   int
-	extraNotes []string
+	known        []knownFinding
+	knownHit     []string
+	knownGone    []string
+	violations   []string
+	extraObl     int // obligations from special analyses (no solver)
+	extraOK      int
+	extraNotes   []string
 	extraSamples []any
-	wall     float64
-	engineErr []string
-	selftest map[string]any
+	wall         float64
+	engineErr    []string
+	selftest     map[string]any
 }
 
 func (r *report) loadKnown() {
@@ -470,24 +470,24 @@ func (r *report) writeEvidence() error {
 		assumptions = append(assumptions, a)
 	}
 	cov := map[string]any{
-		"obligations":              total,
-		"discharged":               disc,
-		"checker_cmd":              fmt.Sprintf("bin/govc check %s --tier %s", r.id, r.tier),
-		"trusted_base":             trusted,
-		"functions_under_contract": r.funcs,
-		"by_backend":               byBackend,
-		"solver_time_s":            round3(solverTime),
-		"slowest":                  slows,
-		"undecided":                r.undecided,
-		"known_findings":           r.knownHit,
-		"known_findings_gone":      r.knownGone,
+		"obligations":                   total,
+		"discharged":                    disc,
+		"checker_cmd":                   fmt.Sprintf("bin/govc check %s --tier %s", r.id, r.tier),
+		"trusted_base":                  trusted,
+		"functions_under_contract":      r.funcs,
+		"by_backend":                    byBackend,
+		"solver_time_s":                 round3(solverTime),
+		"slowest":                       slows,
+		"undecided":                     r.undecided,
+		"known_findings":                r.knownHit,
+		"known_findings_gone":           r.knownGone,
 		"uncontracted_callees_havocked": unc,
-		"samples":                  samples,
-		"explanation":              r.pd.Note,
-		"vacuity":                  map[string]any{"cover_queries": len(r.covers), "cover_sat": countStatus(r.covers, "sat"), "census_minimum": r.pd.MinObligs},
-		"notes":                    r.extraNotes,
-		"violating_obligations":    r.violations,
-		"engine_errors":            r.engineErr,
+		"samples":                       samples,
+		"explanation":                   r.pd.Note,
+		"vacuity":                       map[string]any{"cover_queries": len(r.covers), "cover_sat": countStatus(r.covers, "sat"), "census_minimum": r.pd.MinObligs},
+		"notes":                         r.extraNotes,
+		"violating_obligations":         r.violations,
+		"engine_errors":                 r.engineErr,
 	}
 	if r.selftest != nil {
 		cov["selftest"] = r.selftest
